@@ -288,7 +288,11 @@ class Ctx:
 
     def ann(self, a):
         if 'cond' in a:
-            return self.cond(a['cond'], a.get('fmt', 'satisfying'))
+            live = self.cond(a['cond'], a.get('fmt', 'satisfying'))
+            if 'stock' not in a['cond']:
+                self.conds[id(live)] = a
+                self._keep = getattr(self, '_keep', []) + [live]   # ids must stay unique while the ctx lives
+            return live
         if 'tagged' in a:
             tag, layout = a['tagged']
             ext = False if layout == 'internal' else True if layout == 'external' else tuple(layout)
